@@ -180,7 +180,7 @@ func (f *Formatter) formatDirectorDeclaration(decl *ast.DirectorDeclaration) *De
 				if v := f.formatComment(v.Leading, " ", 0); v != "" {
 					line.Key += v
 				}
-				line.Key += fmt.Sprintf(".%s = %s; ", v.Key.String(), v.Value.String())
+				line.Key += fmt.Sprintf(".%s = %s; ", v.Key.String(), f.formatExpression(v.Value).String())
 			}
 			if len(t.Infix) > 0 {
 				line.Key += f.formatComment(t.Infix, " ", 0)
@@ -191,7 +191,7 @@ func (f *Formatter) formatDirectorDeclaration(decl *ast.DirectorDeclaration) *De
 		case *ast.DirectorProperty:
 			line.Key += "." + t.Key.String()
 			line.Operator = " = "
-			line.Value = t.Value.String()
+			line.Value = f.formatExpression(t.Value).String()
 			line.EndCharacter = ";"
 		}
 		lines = append(lines, line)
@@ -274,8 +274,8 @@ func (f *Formatter) formatTableProperties(props []*ast.TableProperty) string {
 			Leading:      f.formatComment(prop.Leading, "\n", 1),
 			Trailing:     f.trailing(prop.Trailing),
 			Operator:     ": ",
-			Key:          f.indent(1) + prop.Key.String(),
-			Value:        prop.Value.String(),
+			Key:          f.indent(1) + f.formatExpression(prop.Key).String(),
+			Value:        f.formatExpression(prop.Value).String(),
 			EndCharacter: ",",
 		}
 		lines = append(lines, line)
